@@ -968,8 +968,20 @@ def _pid_filter_behind_error_indicator(ctx, run, f):
         for a in atoms.dominating_atoms(f, bid):
             if a.R is not None and a.R.const == 0 and a.rel == "==" and a.L.node is not None:
                 e = f.exprs[ex.skip(f, a.L.node)]
-                while e["k"] == "cast" and e.get("c"):
-                    e = f.exprs[ex.skip(f, e["c"][0])]
+                for _hop in range(3):
+                    while e["k"] == "cast" and e.get("c"):
+                        e = f.exprs[ex.skip(f, e["c"][0])]
+                    if e["k"] == "ref" and e.get("dk") == "local":
+                        # `tei = b1 & 0x80; if (tei)`: a local with a single definition
+                        defs = [rhs for b2, j in flow.all_events(f) for lhs, var, op, rhs in flow.stores(f, j)
+                                if rhs is not None and ((var is not None and var["name"] == e["name"]) or
+                                                        (lhs is not None and f.exprs[ex.skip(f, lhs)].get("name") == e["name"]
+                                                         and f.exprs[ex.skip(f, lhs)]["k"] == "ref"))]
+                        if len(defs) != 1:
+                            break
+                        e = f.exprs[ex.skip(f, defs[0])]
+                        continue
+                    break
                 if e["k"] == "bin" and e["op"] == "&" and 0x80 in (ex.const(f, e["c"][0]), ex.const(f, e["c"][1])):
                     tei = True
         key = "RF-DOM:demux_ts_packet:pid-filter-behind-tei@%d" % n
